@@ -477,6 +477,7 @@ func instrumentFile(fset *token.FileSet, fc *fileCtx, rep *Report, info *types.I
 	// local names of interesting imports
 	local := map[string]string{} // local name -> import path
 	needTime := false
+	keepDebug := false
 	timeLocal := ""
 	for _, im := range f.Imports {
 		path, _ := strconv.Unquote(im.Path.Value)
@@ -682,9 +683,24 @@ func instrumentFile(fset *token.FileSet, fc *fileCtx, rep *Report, info *types.I
 				case "LockOSThread", "UnlockOSThread", "Goexit":
 					p := fset.Position(x.Pos())
 					rep.Refusals = append(rep.Refusals, fmt.Sprintf("%s:%d: runtime.%s", fc.rel, p.Line, x.Sel.Name))
-				case "GC", "NumGoroutine", "AddCleanup":
+				case "GC", "NumGoroutine", "ReadMemStats":
+					o := fc.off(fset, x.X.Pos())
+					fc.replace(o, len(x.X.(*ast.Ident).Name), rtName)
+				case "AddCleanup":
 					p := fset.Position(x.Pos())
 					rep.Unmodelled = append(rep.Unmodelled, fmt.Sprintf("%s:%d: runtime.%s", fc.rel, p.Line, x.Sel.Name))
+				}
+			}
+			if isPkgIdent(x.X, "runtime/debug") {
+				switch x.Sel.Name {
+				case "SetGCPercent", "SetMemoryLimit", "FreeOSMemory":
+					// the collector stays a scheduler decision
+					o := fc.off(fset, x.X.Pos())
+					fc.replace(o, int(x.Sel.End()-x.X.Pos()), rtName+".Debug"+x.Sel.Name)
+					keepDebug = true
+				case "ReadGCStats":
+					p := fset.Position(x.Pos())
+					rep.Unmodelled = append(rep.Unmodelled, fmt.Sprintf("%s:%d: debug.%s", fc.rel, p.Line, x.Sel.Name))
 				}
 			}
 		case *ast.IncDecStmt:
@@ -707,6 +723,9 @@ func instrumentFile(fset *token.FileSet, fc *fileCtx, rep *Report, info *types.I
 	for name, path := range local {
 		if path == "runtime" && name != "_" && name != "." {
 			tail += fmt.Sprintf("var _ = %s.Version\n", name)
+		}
+		if path == "runtime/debug" && keepDebug && name != "_" && name != "." {
+			tail += fmt.Sprintf("var _ = %s.Stack\n", name)
 		}
 	}
 	fc.insert(len(fc.src), tail)
